@@ -222,7 +222,7 @@ var addingFocus bool
 
 // focusLabels is the alphabet of the second exploration: the focus-only events plus the context
 // they need (older/newer versions of the same address, fillers of both authors for eviction).
-var focusLabels = []string{"r2", "q1", "a1", "a3", "v2", "pt", "dPt", "a2d", "aY", "dQv2", "dQa1", "xt", "x1", "tv", "aC", "dAC"}
+var focusLabels = []string{"r2", "q1", "a1", "a3", "v2", "pt", "dPt", "a2d", "aY", "dQv2", "dQa1", "xt", "x1", "tv", "aC", "dAC", "dR2o"}
 
 func init() {
 	P, Q := authorP, authorQ
@@ -241,6 +241,9 @@ func init() {
 	// a d value that contains the separator of addresses, and the deletion request naming that address
 	addEv("aC", "P kind 30000 d=u:v @2", P, 30000, 2, tag("d", "u:v"))
 	addEv("dAC", "P kind 5 @3 a:30000:P:u:v (the d value contains a colon)", P, 5, 3, tag("a", "30000:"+pubkeys[P]+":u:v"))
+	// a backdated deletion request: older than its target and than everything else of the alphabet
+	// (at a full cache it is the oldest item the moment it arrives, yet removing its target makes room)
+	addEv("dR2o", "P kind 5 @0 e:<r2> (older than its target)", P, 5, 0, tag("e", evID("r2")))
 	// tags that have a name and no value element
 	addEv("tv", "P kind 1 @3 tags [t],[d] (no value elements)", P, 1, 3, tag("t"), tag("d"))
 	// deletion requests of Q naming P's replaceable / addressable event by id
